@@ -569,6 +569,11 @@ func genChains(o *hx.Opts, r *rand.Rand, regTo, reqTo int, shapeChains, stallCha
 	for i := 0; i < shapeChains*12; i++ {
 		quick = append(quick, PlugIn{Name: nameShapes[r.Intn(len(nameShapes))], Idx: randIdx(r), Reg: "now", Cfg: "answer", Events: randMask(r), Sync: "answer", Retry: r.Intn(6) == 0})
 	}
+	// plugins built on the repository's own stub (all handlers), asking for every kind of mask
+	for i := 0; i < 6+shapeChains; i++ {
+		quick = append(quick, PlugIn{Name: "stub" + fmt.Sprint(i), Idx: fmt.Sprintf("%02d", r.Intn(100)), Reg: "stub", Cfg: "answer", Events: randMask(r), Sync: "answer"})
+	}
+	quick = append(quick, PlugIn{Name: "stub0", Idx: "00", Reg: "stub", Cfg: "answer", Events: 0, Sync: "answer"})
 	r.Shuffle(len(quick), func(i, j int) { quick[i], quick[j] = quick[j], quick[i] })
 	for len(quick) > 0 {
 		n := 12
@@ -742,14 +747,21 @@ func Run(o *hx.Opts, w *lineio.Writer) error {
 		}
 		order = append(order, idxIDs...)
 		n := 0
-		for _, c := range genChains(o, r, 500, 500, o.N(4, 60), o.N(12, 120)) {
+		for _, c := range genChains(o, r, 500, 500, o.N(8, 500), o.N(24, 400)) {
 			addChain(fmt.Sprintf("chain-%d", n), c)
 			n++
 		}
 		// a second pair of timeouts: short registration timeout, long request timeout
-		for _, c := range genChains(o, r, 300, 800, 0, o.N(4, 40)) {
+		for _, c := range genChains(o, r, 300, 800, 0, o.N(6, 120)) {
 			addChain(fmt.Sprintf("chain-%d", n), c)
 			n++
+		}
+		if o.Thorough() {
+			// long registration timeout, short request timeout
+			for _, c := range genChains(o, r, 800, 300, 10, 120) {
+				addChain(fmt.Sprintf("chain-%d", n), c)
+				n++
+			}
 		}
 		for i, d := range genDirs(r, o.Thorough()) {
 			addDir(fmt.Sprintf("dir-%d", i), d)
